@@ -108,6 +108,9 @@ func st(c *fakenet.Conn) *connState { return c.User.(*connState) }
 
 func (r *run) newConn() *fakenet.Conn {
 	c := r.net.NewConn(r.cell.Stream)
+	if r.cell.Stream && r.cell.Seed%2 == 0 {
+		c.Coalesce = true // one Read may return several replies at once, as TCP does
+	}
 	cs := &connState{trans: map[int]int{}}
 	if r.cell.After != "open" {
 		r.mu.Lock()
@@ -503,6 +506,88 @@ func runWrap(seed int64, n int) {
 	}
 }
 
+// runStaleIdle: non-pipelined transport with an idle timeout much shorter than
+// the server's latency. Query B reuses the connection right after reply A was
+// handed over; its reply comes after 150 ms, far inside the 6 s query timeout.
+// SetReadDeadline is slow on this connection (the caller of it is "descheduled"
+// for 10 ms), so a transport that re-arms the idle deadline after giving the
+// connection back overwrites B's deadline, closes the healthy connection and
+// re-sends B. Oracle (events only): B is written exactly once, returns the
+// reply to that one transmission, and the connection is not closed.
+func runStaleIdle(seed int64, rounds int) {
+	caselog.Log(map[string]any{"stale_idle": seed})
+	for round := 0; round < rounds; round++ {
+		net := fakenet.NewNet()
+		var mu sync.Mutex
+		writes := map[int]int{}
+		replyDelay := map[int]time.Duration{}
+		t := transport.NewReuseConnTransport(transport.ReuseConnOpts{
+			IdleTimeout: 40 * time.Millisecond,
+			DialContext: func(ctx context.Context) (transport.NetConn, error) {
+				c := net.NewConn(true)
+				c.DelayReadDeadline = 10 * time.Millisecond
+				var defr wire.Deframer
+				c.OnWrite = func(c *fakenet.Conn, data []byte) error {
+					for _, f := range defr.Feed(data) {
+						qi, err := dnsadv.ParseQuery(f)
+						if err != nil {
+							continue
+						}
+						mu.Lock()
+						writes[qi.Seq]++
+						n := writes[qi.Seq]
+						d := replyDelay[qi.Seq]
+						mu.Unlock()
+						msg := wire.Frame(dnsadv.Reply(qi.WireID, 0x8180, qi.QSect, fmt.Sprintf("r/c%d/q%d/t%d", c.ID, qi.Seq, n), 0, 0))
+						if d == 0 {
+							c.Inject(msg)
+						} else {
+							time.AfterFunc(d, func() { c.Inject(msg) })
+						}
+					}
+					return nil
+				}
+				return c, nil
+			},
+		})
+		call := func(delay time.Duration) (int, string, error) {
+			seq := int(seqCounter.Add(1))
+			mu.Lock()
+			replyDelay[seq] = delay
+			mu.Unlock()
+			ctx, cancel := context.WithTimeout(context.Background(), 4*time.Second)
+			defer cancel()
+			rb, err := t.ExchangeContext(ctx, dnsadv.Query(uint16(seq), seq, 1, "c02", 1))
+			if err != nil {
+				return seq, "", err
+			}
+			defer pool.ReleaseBuf(rb)
+			ri, _ := dnsadv.ParseReply(*rb)
+			return seq, ri.Token, nil
+		}
+		_, _, errA := call(0)
+		seqB, tokB, errB := call(150 * time.Millisecond)
+		rep.Eval(2)
+		mu.Lock()
+		wB := writes[seqB]
+		mu.Unlock()
+		conns := net.Conns()
+		wit := map[string]any{"scenario": "reuse transport, idle_timeout 40 ms, reply to the second query after 150 ms, SetReadDeadline takes 10 ms", "round": round, "writes_of_query_B": wB, "connections": len(conns), "token": tokB, "errA": fmt.Sprint(errA), "errB": fmt.Sprint(errB)}
+		switch {
+		case errA != nil:
+			rep.Count("stale_idle_rounds_not_judged", 1)
+		case errB != nil:
+			rep.Violation("healthy-conn-closed-reply-in-time-reuse", fmt.Sprintf("the peer answered the query 150 ms after it was sent (deadline 4 s away) but the exchange failed: %v", errB), wit)
+		case wB != 1 || len(conns) != 1:
+			rep.Violation("query-resent-although-reply-in-time-reuse", fmt.Sprintf("the peer answers every query within 150 ms on a healthy connection, yet the query was written %d times over %d connection(s): the transport closed the connection under the waiting query", wB, len(conns)), wit)
+		default:
+			rep.Count("stale_idle_rounds_ok", 1)
+			rep.Nontrivial(fmt.Sprintf("stale-idle|%d", round))
+		}
+		t.Close()
+	}
+}
+
 func main() {
 	rep = evid.New("C02", "exploration")
 	caselog = evid.OpenCaseLog()
@@ -568,6 +653,7 @@ func main() {
 	}
 	runtime.GOMAXPROCS(16)
 	runWrap(rep.Seed, 66000)
+	runStaleIdle(rep.Seed, rep.Pick(6, 40))
 	poolsan.Sweep()
 	rep.Count("cells", int64(cells))
 	for name, n := range sched.Counts() {
